@@ -179,10 +179,20 @@ impl<'a, T: ColumnProvider> ExpressionExecutionEngine<'a, T> {
             ExpressionTree::In { is_not, operand, values } => {
                 let executed_operand = self.evaluate(operand)?;
 
+                // x IN (a, b) is x = a OR x = b and x NOT IN (a, b) is x != a AND x != b,
+                // where (as for the comparison operators) a comparison with NULL is false
                 for value in values {
                     let expected_value = self.evaluate(value)?;
-                    if executed_operand == expected_value {
-                        return Ok(Value::Bool(!is_not));
+                    let comparable = executed_operand.is_not_null() && expected_value.is_not_null();
+
+                    if *is_not {
+                        if !(comparable && executed_operand != expected_value) {
+                            return Ok(Value::Bool(false));
+                        }
+                    } else {
+                        if comparable && executed_operand == expected_value {
+                            return Ok(Value::Bool(true));
+                        }
                     }
                 }
 
